@@ -9,6 +9,7 @@
 #include <algorithm>
 #include <set>
 #include <deque>
+#include <optional>
 #include <memory>
 #include <cstring>
 
@@ -42,6 +43,8 @@ struct Harness {
    std::deque<std::u8string> foreign_bytes;
    std::deque<impl::String> foreign_nodes;
    std::set<std::string> foreign_ever;      // spellings ever requested through a String the Lexicon did not intern
+   std::u8string slot_bytes; std::optional<impl::String> slot;      // one client String node, re-created in place
+   std::set<std::string> recyclable;        // spellings that may come through the recycled slot (see str())
    impl::Lexicon lex;
    impl::Translation_unit unit { lex };
    Rng rng;
@@ -114,6 +117,14 @@ struct Harness {
          foreign_bytes.emplace_back(u8); foreign_nodes.emplace_back(util::word_view(foreign_bytes.back()));
          return foreign_nodes.back();
       }
+      if (src == 3 && recyclable.count(w)) {
+         // a client String node in a slot that is re-used for every such request (same address, other spelling each time) -- used
+         // only for spellings the constructor already knows or that are reserved, for which the library keeps no reference
+         slot_bytes.assign(u8.begin(), u8.end());
+         slot.emplace(util::word_view(slot_bytes));
+         foreign_ever.insert(w); ctx().count("string_operands_in_a_recycled_slot");
+         return *slot;
+      }
       return lex.get_string(u8);
    }
    bool own_string(const String& s, const std::string& w) { return foreign_ever.count(w) ? narrow(s.characters()) == w : &s == &lex.get_string(widen(w)); }
@@ -167,7 +178,10 @@ struct Harness {
       }
       switch (r.ctor) {
       case IDENT: {
+         const bool known = reserved.count(r.word) || fwd[IDENT].count([&] { std::string k; puts(k, r.word); return k; }());
+         if (known) recyclable.insert(r.word); else recyclable.erase(r.word);
          auto& n = (variant & 1) ? lex.get_identifier(str(r.word, variant)) : lex.get_identifier(u8);
+         recyclable.erase(r.word);
          puts(key, r.word); node = static_cast<const Name*>(&n); asnode = &n; cat = Category_code::Identifier;
          if (narrow(n.string().characters()) != r.word) bad(r, "identifier spelled differently from the request");
          if (!own_string(n.string(), r.word)) bad(r, "identifier's string is not the interned word");
@@ -295,6 +309,20 @@ struct Harness {
       }
       ctx().count("string_pool_rollovers_during_name_requests", Inspector::arena_pools(arena) - start);
    }
+   // back-to-back get_identifier requests through ONE client String slot that is re-created in place with another spelling
+   // each time (nothing else is asked of the Lexicon in between); only spellings the Lexicon already knows
+   void recycled_slot_burst()
+   {
+      std::vector<std::string> known;
+      for (auto& r : history) if (r.ctor == IDENT) known.push_back(r.word);
+      for (auto& w : reserved) known.push_back(w);
+      if (known.size() < 2) return;
+      for (int k = 0; k < 300; ++k) {
+         Req r; r.ctor = IDENT; r.word = rng.pick(known);
+         execute(r, 1 | (3 << 2));
+      }
+      ctx().count("recycled_slot_bursts");
+   }
    // every request of the history once more, through a random equivalent entry point
    void replay_all()
    {
@@ -419,7 +447,7 @@ static void body(Ctx& C)
           "pairs of a spelling pool; live tables validated through the hook");
    C.assume("the 56 reserved spellings of the pinned tree are the oracle for which identifiers are process-wide constants");
    for (int c = 0; c < NCTOR; ++c) { C.need(std::string("distinct_keys:") + ctor_name[c]); C.need(std::string("re_requests:") + ctor_name[c]); }
-   C.need("spellings_in_an_unterminated_buffer"); C.need("spellings_as_the_front_of_a_longer_buffer"); C.need("string_operands_from_another_lexicon"); C.need("string_operands_free_standing"); C.need("single_identifier_checks"); C.need("reserved_word_checks"); C.need("equality_pairs"); C.need("table_validations");
+   C.need("spellings_in_an_unterminated_buffer"); C.need("spellings_as_the_front_of_a_longer_buffer"); C.need("string_operands_from_another_lexicon"); C.need("string_operands_free_standing"); C.need("string_operands_in_a_recycled_slot"); C.need("recycled_slot_bursts"); C.need("single_identifier_checks"); C.need("reserved_word_checks"); C.need("equality_pairs"); C.need("table_validations");
    C.need("string_pool_rollovers_during_name_requests"); C.need("final_replays"); C.need("symbol_route_label"); C.need("symbol_route_this"); C.need("symbol_route_direct");
    const int histories = C.thorough ? 12 : 3;
    const long long nreq = C.thorough ? 150000 : 6000;
@@ -434,6 +462,7 @@ static void body(Ctx& C)
       }
       H.bulk_spellings(C.thorough ? 6 : 2);
       H.replay_all();
+      H.recycled_slot_burst();
       H.single_identifier_rule();
       H.value_equalities();
       H.quiescent();
